@@ -147,7 +147,14 @@ def gen_idx(tier, seed, want_big=True):
         base = rng.choice([858, max(lo, 0) + rng.randint(0, 10 ** 6), lo + 3])
         m = rng.choice([45, 300, 2 * cfg["eps"] + 40])
         keys = [base] * m + [base + 6] * 2
-        qs = sorted(set([base, base + 1, base + 6, base + 7, hi - 1, hi - 2] + [base + (1 << j) for j in range(3, cfg["kbits"]) if base + (1 << j) <= hi - 1]))
+        qs = set([base, base + 1, base + 6, base + 7, hi - 1, hi - 2] + [base + (1 << j) for j in range(3, cfg["kbits"]) if base + (1 << j) <= hi - 1])
+        # slope of the run segment is about m/6: queries whose predicted position slope*(q-key) lands just below 2^64 / 2^63 / 2^62
+        for lim in (1 << 64, 1 << 63, 1 << 62):
+            for d in (1, 600, 2100, 5000, 70000):
+                for mm in (m, m - 1, m + 1, m + 2):
+                    v = base + ((lim - d) * 6) // mm
+                    if lo <= v <= hi - 1: qs.add(v)
+        qs = sorted(qs)
         cid += 1
         cases.append(idx_case("f%d" % cid, cfg, 1, keys, qs))
         stats["styles"]["steep+far"] = stats["styles"].get("steep+far", 0) + 1
@@ -281,8 +288,8 @@ def gen_dyn(tier, seed, reject=False):
         # keep the buffer small enough that merges cascade within a few hundred operations
         if bl == 0 and rng.random() < 0.7: bl = 1
         universe = rng.choice([12, 40, 150, 1000])
-        origin = rng.choice([lo, 0, lo + 5, hi - universe - 3]) if rng.random() < 0.3 else rng.randint(lo, hi - universe - 2)
-        origin = max(lo, min(origin, hi - universe - 2))
+        origin = rng.choice([lo, 0, lo + 5, hi - universe - 3, hi - universe]) if rng.random() < 0.35 else rng.randint(lo, hi - universe - 2)
+        origin = max(lo, min(origin, hi - universe))          # keys may reach max-1 (the largest admissible key)
         key = lambda: origin + rng.randrange(universe)
         nbulk = rng.choice([0, 0, 1, 3, 20, 100, 400])
         mode = rng.random()
@@ -301,7 +308,7 @@ def gen_dyn(tier, seed, reject=False):
                 else: ops.append("I:%d:%d" % (key(), rng.randrange(60000))); o = "I"
             elif r < 0.67: ops.append("F:%d" % key()); o = "F"
             elif r < 0.72: ops.append("C:%d" % key()); o = "C"
-            elif r < 0.82: ops.append("L:%d" % max(lo, rng.choice([key(), key() - 1, origin - 1, origin + universe + 1, lo]))); o = "L"
+            elif r < 0.82: ops.append("L:%d" % min(hi - 1, max(lo, rng.choice([key(), key() - 1, origin - 1, origin + universe + 1, lo])))); o = "L"
             elif r < 0.88:
                 a, b = sorted([key(), key()]); ops.append("R:%d:%d" % (a, b)); o = "R"
             elif r < 0.93: ops.append("T:%d" % key()); o = "T"
@@ -524,9 +531,21 @@ def gen_multi(tier, seed):
             else:
                 for _ in range(rng.randint(1, 200)):
                     pts.append([rng.randint(0, min(cmax, 64)) for _ in range(D)])
+            heavy = None
+            if pts and rng.random() < 0.4:
+                # one heavily duplicated cell: more copies than the search window is wide (2*Epsilon+2), used below as the
+                # max corner / min corner / single cell of boxes
+                heavy = list(rng.choice(pts))
+                pts += [list(heavy) for _ in range(rng.choice([2 * cfg["eps"] + 3, 4 * cfg["eps"] + 10, 100]))]
+                stats["kind"]["heavy-duplicate"] = stats["kind"].get("heavy-duplicate", 0) + 1
             rng.shuffle(pts)
             allp = pts
             boxes = []
+            if heavy is not None:
+                hs = ":".join(map(str, heavy))
+                boxes.append(hs + "/" + hs)
+                boxes.append(":".join(map(str, [max(0, x - rng.randint(0, 6)) for x in heavy])) + "/" + hs)
+                boxes.append(hs + "/" + ":".join(map(str, [min(cmax, x + rng.randint(0, 6)) for x in heavy])))
             for _ in range(10 if tier == "quick" else 25):
                 a = rng.choice(allp); b = rng.choice(allp)
                 mode = rng.random()
